@@ -18,6 +18,8 @@ import FordModel.ExternalAssoc
 import FordModel.Lemmas.ExternalAssoc
 import FordModel.ExternalChild
 import FordModel.Lemmas.ExternalChild
+import FordModel.ExternalHref
+import FordModel.Lemmas.ExternalHref
 namespace Ford.C16
 open Ford Ford.Ext
 
@@ -798,6 +800,93 @@ example :
     outcome (xFindChild (specE b none m) (chars! "VEC") none) = [chars! "type", chars! "vec", chars! "/A/doc/type/vec.html"] ∧
     outcome (xFindChild (specE b none m) (chars! "vec") (some (chars! "Interface")))
       = [chars! "interface", chars! "vec", chars! "/A/doc/interface/vec.html"] := by
+  decide
+
+/-! ## Round 6: the `href` of a textual reference to an imported entity -/
+
+/-- **A `[[...]]` reference to an entity imported from a local path leads, from the page it is shown on, to the
+    entity's URL in A's documentation.**  `convert_link` writes `relpath(external_url, current_path)` with
+    `current_path = <output dir>/<Path(context url).parent.parent>/non-existent dir` - the text is shown on the
+    entity's own page and on list pages, so the reference has to work from every directory *next to* that one.
+    For every output directory `base`, every `pre`, every sibling directory `d`, every absolute URL without `..`
+    (what `dict2obj` builds: A's resolved location / `get_url`): following the reference from `base/pre/d`
+    arrives exactly at the URL.  Excluded (decidable, witnessed below): A's documentation lying inside
+    `base/pre/non-existent dir`. -/
+theorem textual_link_leads_to_imported_url_partial (base pre : List Path.Seg) (d : Path.Seg) (itemUrl : Str)
+    (hb : Path.Normal base) (hpre : Path.Normal pre) (hd : Path.NormalSeg d) (habs : isAbs itemUrl = true)
+    (hup : Path.up ∉ pathSegs itemUrl)
+    (hx : ¬ (base ++ pre ++ [kNonExistent]) <+: pathSegs itemUrl) :
+    Path.resolve (base ++ pre ++ [d]) (linkRel base (base ++ pre ++ [kNonExistent]) itemUrl) = pathSegs itemUrl := by
+  have ht : Path.Normal (pathSegs itemUrl) := by
+    intro s hs
+    have hne : s ≠ Path.up := fun h => hup (h ▸ hs)
+    simp only [pathSegs, List.mem_filter, Bool.and_eq_true, Bool.not_eq_true', bne_iff_ne, ne_eq] at hs
+    refine ⟨?_, hs.2.2, hne⟩
+    intro h; subst h; simp at hs
+  have hP : Path.Normal (base ++ pre) := Path.normal_append hb hpre
+  have hX : Path.NormalSeg kNonExistent := by decide
+  have hcur : Path.Normal (base ++ pre ++ [kNonExistent]) :=
+    Path.normal_append hP (fun s hs => by simp at hs; subst hs; exact hX)
+  have hne : Path.relpath (pathSegs itemUrl) (base ++ pre ++ [kNonExistent]) ≠ [] := by
+    intro h
+    exact hx (by rw [relpath_eq_nil _ _ h]; exact List.prefix_refl _)
+  have h1 : linkRel base (base ++ pre ++ [kNonExistent]) itemUrl
+      = Path.relpath (pathSegs itemUrl) (base ++ pre ++ [kNonExistent]) := by
+    unfold linkRel linkTarget Path.relpathPy
+    simp only [habs, if_true]
+    rw [Path.norm_normal _ ht, Path.norm_normal _ hcur, if_neg hne]
+  rw [h1]
+  unfold Path.resolve Path.norm
+  rw [foldl_sibling (base ++ pre) (pathSegs itemUrl) d kNonExistent hP ht hd hX hx []]
+  simp
+
+/-- the page directory the theorem speaks of is the one `MetaMarkdown.convert` computes from the context's URL -/
+theorem current_path_is_sibling_of_page_directories (base ctxUrl : List Path.Seg) :
+    currentPath base ctxUrl = base ++ ctxUrl.dropLast.dropLast ++ [kNonExistent] := rfl
+
+/-- **A reference to an entity imported from a remote location is the imported URL, unchanged**, wherever the
+    page is. -/
+theorem remote_link_href_verbatim (base cur : List Path.Seg) (u : Str) (h : (stripHttp u).isSome = true) :
+    linkHref base cur u = u := by
+  have : startsWith u kHttp = true := by
+    unfold stripHttp at h
+    split at h <;> simp_all [startsWith, kHttp]
+  simp [linkHref, this]
+
+/-- the second look `RelativeLinksTreeProcessor` takes at every `href` changes nothing unless the reference,
+    read from the working directory, happens to lie below the output directory -/
+theorem tree_processor_leaves_foreign_href (base cwd cur : List Path.Seg) (href : Str)
+    (h : properPrefix base (if isAbs href then Path.norm (pathSegs href) else Path.norm (cwd ++ pathSegs href)) = false) :
+    fixHref base cwd cur href = href := by
+  simp [fixHref, h]
+
+/-- **Witnesses for the two exclusions** (`decide`): A documented inside `<B's output>/non-existent dir` - the
+    reference made from there is followed from `module/` to a place inside B's `module/` directory; and a layout
+    in which the reference, read from the working directory, lies below the output directory - the tree processor
+    rewrites it into a reference to a page of B (as long as it reads relative references that way: the probed
+    `Gen.treeProcessorReadsRelative`; with the candidate repair it leaves the reference alone). -/
+theorem textual_link_exclusions_witness :
+    let base : List Path.Seg := [chars! "w", chars! "doc"]
+    Path.resolve (base ++ [chars! "module"])
+        (linkRel base (base ++ [kNonExistent]) (chars! "/w/doc/non-existent dir/A/module/m.html"))
+      = [chars! "w", chars! "doc", chars! "module", chars! "A", chars! "module", chars! "m.html"] ∧
+    (Gen.treeProcessorReadsRelative = true →
+      pageHref base [chars! "w"] (base ++ [kNonExistent]) (chars! "/w/w/doc/A/m.html") = chars! "../A/m.html") ∧
+    (Gen.treeProcessorReadsRelative = false →
+      pageHref base [chars! "w"] (base ++ [kNonExistent]) (chars! "/w/w/doc/A/m.html") = chars! "../../w/doc/A/m.html") ∧
+    linkHref base (base ++ [kNonExistent]) (chars! "/w/w/doc/A/m.html") = chars! "../../w/doc/A/m.html" := by
+  decide
+
+/-- Non-vacuity: B documented in `/w/B/doc`, A in `/w/A/doc`: the reference shown on `module/bmod.html` and on
+    `lists/modules.html` is `../../../A/doc/module/geom.html` and leads to A's page from both. -/
+example :
+    let base : List Path.Seg := [chars! "w", chars! "B", chars! "doc"]
+    hrefOf base [chars! "w", chars! "B"] (.context [chars! "module", chars! "bmod.html"]) (chars! "/w/A/doc/module/geom.html")
+      = chars! "../../../A/doc/module/geom.html" ∧
+    Path.resolve (base ++ [chars! "lists"]) (pathSegs (chars! "../../../A/doc/module/geom.html"))
+      = [chars! "w", chars! "A", chars! "doc", chars! "module", chars! "geom.html"] ∧
+    hrefOf base [chars! "w", chars! "B"] (.context [chars! "module", chars! "bmod.html"]) (chars! "https://ex.invalid/a/module/geom.html")
+      = chars! "https://ex.invalid/a/module/geom.html" := by
   decide
 
 end Ford.C16
